@@ -24,6 +24,29 @@
    by the same Effective operator; the check corrupts one field / drops one event of an accepted trace and
    requires the specification to reject it.
 
+Coverage table (statement clause / quantifier dimension -> what explores it -> what is still a point or absent)
+  levels entry > iface config > package config > top level > default
+      -> chain worlds: every subset of env<root<p1<p1A<p1A1 per parameter (quick: env toggled by parity), siblings p2/p1B/p1A2,
+         config-only (C), `{}` (N), `null` entries, unlisted (D,E), discovered sub-packages, explicit sub-package p1x;
+         packed worlds: pseudo-random subsets of all 22 levels.            gap: one tree shape; nesting depth of recursion 1;
+         a sub-package below TWO recursive ancestors (C07's Recursive.tla owns that); `key: null` as a spelling of "unset"
+  every parameter (17 + template-data through the built-in templates + build-tags)
+      -> one focus family each.                                             gap: `_anchors` only as inert content; `config:` key inside the file
+  value classes: pairwise distinct markers; bool/3-valued: every assignment (thorough) / alternating (quick);
+      explicit zero values: false (bools, map leaves), "" (include/exclude regex at package level, map leaves), [] (exclude-subpkg-regex),
+      {} (template-data, nested, replace-type, inner replace-type map), 0 and lists as map leaves, scalar/list over map and map over scalar
+      at three nesting depths.                                              gap: "" for dir/filename/pkgname/structname/template (not valid values);
+         env spellings 1/yes (not documented); numbers other than 0
+  template-data key by key incl. nested -> 12 shapes x level rank; file-level = package level; built-in switches by whole-text comparison
+  sources defaults < env < file < flags -> env is a chain level for every scalar parameter (True/true/TRUE for bools); log-level: all 8 subsets of
+      env/file/flag x values; config file: 4 env x flag cases; build-tags env/file.     gap: only --config and --log-level exist as flags
+  no leaks into siblings -> every world has sibling packages / interfaces / entries; per-package parameters written on interfaces / entries
+      (must not leak upwards); explicit sub-package under a recursive parent as the way out for shared maps (any and typed, depth 2 and 3)
+  per-output-file parameters for the mocks sharing a file -> share modes entries / package; focus runs (force=false, schema poison, reject-all)
+                                                                            gap: two remote templates over http (C12); disagreeing mocks in one file (open)
+  per-package parameters -> chain env<root<p1 with sibling p2, sub-packages p1s1/p1s2/p2s1/p2s2, explicit [] and "" values
+  config file spelling -> JSON (even worlds) / block YAML with `_anchors`, an alias and an unused anchor (odd worlds).   gap: YAML merge keys `<<`
+
 Environment knobs for development only: C08_ONLY=<param,...>, C08_LIMIT=<n>, C08_DEBUG=<file>, C08_JOBS=<n>.
 """
 import concurrent.futures as cf
@@ -1074,6 +1097,12 @@ def vacuity(T, cases, stats):
         raise MachineryError("vacuous: no file-sharing worlds")
     if not any(c["desc"]["sib"] for c in chain):
         raise MachineryError("vacuous: no world with sibling settings")
+    letters = {m["letter"] for c in chain if c["desc"]["param"] == "build-tags" for m in c["mocks"]}
+    if not {"X", "Y"} <= letters:
+        raise MachineryError(f"vacuous: build-tags worlds never expect the tagged interfaces ({sorted(letters)})")
+    if not any(p in unjson(c["cfg"].get(n, {})) for c in chain for n in ("p1A", "p1B1", "p2A")
+               for p in ("all", "recursive", "exclude-subpkg-regex", "include-interface-regex")):
+        raise MachineryError("vacuous: no world writes a per-package parameter on an interface / configs entry")
     if len(packed) < 8:
         raise MachineryError(f"vacuous: only {len(packed)} packed worlds are well-formed")
     if not any(m["how"] == "subpkg" for c in cases for m in c["mocks"]) or not any(m["how"] == "unlisted" for c in cases for m in c["mocks"]):
